@@ -36,6 +36,15 @@ def observe(obj):
     return json.dumps(proto.strict_record(obj), sort_keys=True)
 
 
+def existing_or_new_name(g, rec):
+    """an attribute name the record already uses (a second value goes into the *same* value set), else a new one"""
+    from prov.constants import PROV_ATTRIBUTES
+    names = [a for (a, _v) in rec.attributes if a not in PROV_ATTRIBUTES]
+    if names and g.chance(0.7):
+        return g.choice(names)
+    return QualifiedName(Namespace("mut", "http://mutation/"), "p")
+
+
 def mutate(g, w, b, c, rec_handles):
     """apply one mutator to container c (or one of its records); returns description"""
     r = g.rng
@@ -46,7 +55,7 @@ def mutate(g, w, b, c, rec_handles):
         m = "add_record"
     if m == "add_attrs":
         h = w.rec_at(c, r.randrange(len(recs)))
-        w.add_attrs(h, [(QualifiedName(Namespace("mut", "http://mutation/"), "p"), "mutated-%d" % r.randint(0, 99))])
+        w.add_attrs(h, [(existing_or_new_name(g, w.recs[h]), "mutated-%d" % r.randint(0, 99))])
     elif m == "set_time":
         acts = [i for i, x in enumerate(recs) if x.get_type().localpart == "Activity"]
         if not acts:
@@ -163,7 +172,7 @@ def make_case(ctx, g):
             src_obj, der_obj = w.recs[h], w.recs[nh]
             before = (observe(src_obj), observe(der_obj), observe(w.conts[c]))
             target = h if side == "source" else nh
-            w.add_attrs(target, [(QualifiedName(Namespace("mut", "http://mutation/"), "p"), "mutated")])
+            w.add_attrs(target, [(existing_or_new_name(g, w.recs[target]), "mutated")])
             m = "add_attrs"
             after = (observe(src_obj), observe(der_obj), observe(w.conts[c]))
             other_before, other_after = (before[1], after[1]) if side == "source" else (before[0], after[0])
